@@ -229,6 +229,38 @@ func ReplayImmutable(cs *ImCase) (*run.Finding, int) {
 				} else {
 					made = src.n
 				}
+			case "stale-assembler":
+				// a new map {a:1, b:[2]} built by hand on a builder of the source's implementation family, keeping
+				// the value-assembler handle of the last entry; after Build the stale handle is called (under
+				// recover: it may panic) -- the finished node must not change
+				np := datamodel.NodePrototype(basicnode.Prototype.Map)
+				if s.I%2 == 0 {
+					np = basicnode.Prototype.Any
+				}
+				nb := np.NewBuilder()
+				ma, err := nb.BeginMap(2)
+				if err != nil {
+					operr = err
+					return
+				}
+				va, _ := ma.AssembleEntry("a")
+				va.AssignInt(1)
+				stale, _ := ma.AssembleEntry("b")
+				la, err := stale.BeginList(1)
+				if err != nil {
+					operr = err
+					return
+				}
+				la.AssembleValue().AssignInt(2)
+				la.Finish()
+				ma.Finish()
+				made, madeNb = nb.Build(), nb
+				model.Safe(func() { stale.AssignString("clobbered") })
+				model.Safe(func() {
+					if e, err := ma.AssembleEntry("c"); err == nil {
+						e.AssignInt(3)
+					}
+				})
 			case "store-load":
 				lnk, err := ls.Store(linking.LinkContext{}, linkProto, src.n)
 				if err != nil {
